@@ -268,6 +268,8 @@ def handleConnect (cfg : Cfg) (s : Srv) (t : Eio) (nsp : Option Str) (data : Opt
     let auth : List J := match data with
       | some d => if d.truthy then [d] else []
       | none => []
+    -- `self.environ[eio_sid]` is evaluated as an argument of the handler call
+    if !s.environ.contains t then (s, o0 ++ [.raised .keyError]) else
     match resolve cfg.reg ns (.str "connect".toList) (.str sidNew :: auth) with
     | .error _ => (s, o0 ++ [.raised .typeError])
     | .ok r =>
